@@ -105,7 +105,7 @@ func (h *c16Harness) compare(o *World, what string, step int) *Violation {
 		return &Violation{Property: "C16", OracleID: "c16.replica", Signature: "divergence:length", Step: step,
 			Detail: fmt.Sprintf("%s produced %d outcome records, primary %d", what, len(b), len(a))}
 	}
-	if strings.HasPrefix(a[len(a)-1], "commit") {
+	if len(a) > 0 && strings.HasPrefix(a[len(a)-1], "commit") {
 		h.w0.Stats.Probe("c16.block_hashes_compared")
 	}
 	return nil
